@@ -75,6 +75,14 @@ impl V {
             V::RFrom(a) => format!("(r {} _ 0)", a),
         }
     }
+    fn has_non_ascii(&self) -> bool {
+        match self {
+            V::S(s) => !s.is_ascii(),
+            V::T(xs) | V::L(xs) => xs.iter().any(|x| x.has_non_ascii()),
+            V::M(es) => es.iter().any(|(k, v)| !k.is_ascii() || v.has_non_ascii()),
+            _ => false,
+        }
+    }
     fn kind(&self) -> &'static str {
         match self {
             V::Null => "null",
@@ -234,6 +242,24 @@ impl P {
             }
         }
     }
+    /// variables bound under a type hint
+    fn typed_vars(&self, out: &mut Vec<usize>) {
+        match self {
+            P::Id(x, Some(_)) => out.push(*x),
+            P::Map(es, _) => {
+                for e in es {
+                    if e.ty.is_some() {
+                        match &e.bind {
+                            Bind::Same(x) | Bind::As(x) => out.push(*x),
+                            Bind::Ignore => {}
+                        }
+                    }
+                }
+            }
+            P::Seq(pre, _, post) => pre.iter().chain(post.iter()).for_each(|p| p.typed_vars(out)),
+            _ => {}
+        }
+    }
     fn depth(&self) -> usize {
         match self {
             P::Seq(pre, _, post) => 1 + pre.iter().chain(post.iter()).map(|p| p.depth()).max().unwrap_or(0),
@@ -291,6 +317,15 @@ struct Arm {
     guard: Option<G>,
 }
 impl Arm {
+    fn typed_vars(&self) -> Vec<usize> {
+        let mut v = vec![];
+        for a in &self.alts {
+            for p in a {
+                p.typed_vars(&mut v);
+            }
+        }
+        v
+    }
     fn vars(&self) -> Vec<usize> {
         let mut v = vec![];
         for a in &self.alts {
@@ -596,9 +631,15 @@ impl Ctx {
                 Ok(v) => impl_outcome(v, nsubj),
                 Err(e) => (format!("E:host:{}", e.to_string().lines().next().unwrap_or("")), None),
             };
-            let (model_code, guide) = match resp.split_once(" ; ") {
+            let (model_code, guide_full) = match resp.split_once(" ; ") {
                 Some((a, b)) => (a.to_string(), b.to_string()),
                 None => (resp.clone(), String::new()),
+            };
+            // guide verdict (arm + bindings) and the guide's registers after the match
+            // (only the selected alternative's bindings written)
+            let (guide, guide_regs) = match guide_full.split_once(" R: ") {
+                Some((a, b)) => (a.trim_end().to_string(), split_vals(b)),
+                None => (guide_full.trim_end_matches(" R:").to_string(), vec![]),
             };
             let key = format!("{} | {}", mc.request(), reqs_key(vs));
             let nontrivial = vs.iter().any(|v| !matches!(v, V::Null)) && !mc.arms.is_empty();
@@ -661,8 +702,58 @@ impl Ctx {
                 }
                 continue;
             }
+            if d_ok && !code_impl.starts_with("E:") {
+                // (D) registers of non-selected arms/alternatives: the guide leaves them untouched
+                let regs = split_vals(code_impl.split(" T:").next().unwrap());
+                let regs = &regs[1..];
+                let diff: Vec<usize> = (0..regs.len().min(guide_regs.len())).filter(|i| regs[*i] != guide_regs[*i]).collect();
+                if !diff.is_empty() {
+                    let selected: usize = if code_impl.starts_with('A') {
+                        code_impl[1..].split(' ').next().unwrap().parse().unwrap_or(usize::MAX)
+                    } else {
+                        usize::MAX
+                    };
+                    let reg_of = |x: usize| if is_subj_var(x) { VARS.len() + (SUBJ_VAR - x) } else { x };
+                    let tried: Vec<&Arm> = mc.arms.iter().enumerate().filter(|(i, _)| *i <= selected).map(|(_, a)| a).collect();
+                    let tried_regs: Vec<usize> = tried.iter().flat_map(|a| a.vars()).map(reg_of).collect();
+                    let typed_regs: Vec<usize> = tried.iter().flat_map(|a| a.typed_vars()).map(reg_of).collect();
+                    let has = |id: &str| self.open.iter().any(|x| x == id);
+                    let id = if !diff.iter().all(|i| tried_regs.contains(i)) {
+                        None
+                    } else if has("F-C03-11") {
+                        Some("F-C03-11") // a tried, non-selected pattern wrote its variable before failing
+                    } else if has("F-C03-8") && diff.iter().all(|i| typed_regs.contains(i)) {
+                        Some("F-C03-8") // … and the variable carries a type hint
+                    } else {
+                        None
+                    };
+                    match id {
+                        Some(id) => *self.known_counts.entry(id.to_string()).or_insert(0) += 1,
+                        None => {
+                            self.d_fail += 1;
+                            if self.d_fail <= 6 {
+                                self.rep.violation(
+                                    "D",
+                                    "C03:match:leak",
+                                    json!({"program": call_text, "arms": mc.request(), "subject": reqs_key(vs), "origin": mc.origin,
+                                           "impl": code_impl, "guide_registers": guide_regs.join(" "), "differing_registers": diff,
+                                           "note": "registers other than the selected alternative's bindings changed during the match and no listed finding explains it"}),
+                                );
+                            }
+                        }
+                    }
+                }
+            }
             if !d_ok {
-                match self.attribute(mc, early, &model_code) {
+                // F-C03-10: a parenthesised pattern indexes strings by byte
+                let multibyte = vs.iter().any(|v| v.has_non_ascii())
+                    && mc.arms.iter().any(|a| a.alts.iter().any(|al| al.iter().any(|p| p.has(&|q| matches!(q, P::Seq(..))))));
+                let attributed = if multibyte && self.open.iter().any(|x| x == "F-C03-10") {
+                    Some("F-C03-10")
+                } else {
+                    self.attribute(mc, early, &model_code)
+                };
+                match attributed {
                     Some(id) => {
                         *self.known_counts.entry(id.to_string()).or_insert(0) += 1;
                     }
@@ -809,6 +900,8 @@ fn extra_subjects() -> Vec<V> {
         m(vec![("k k", i(3)), ("a", i(0))]),
         m(vec![("a", V::T(vec![i(1), i(2)])), ("b", m(vec![("a", i(1))]))]),
         m(vec![("a", V::Null)]),
+        m(vec![("keys", i(3)), ("a", i(1))]),
+        m(vec![("size", i(0)), ("first", s("a"))]),
         V::R(0, 0, false),
         V::R(0, 1, false),
         V::R(0, 2, false),
@@ -992,6 +1085,8 @@ struct Gen<'a> {
     allow_quirks: bool,
     /// F-C03-2 is recorded as fixed: subject names are ordinary pattern variables
     subj_fixed: bool,
+    /// F-C03-6 is recorded as fixed: map-pattern keys may be names of core-library functions
+    core_keys: bool,
 }
 
 const TYPES: [&str; 9] = ["Number", "String", "Bool", "Null", "List", "Tuple", "Map", "Range", "Any"];
@@ -1036,6 +1131,11 @@ impl<'a> Gen<'a> {
                 2 => ("c", Some(2)),
                 3 => ("k k", None),
                 _ => ("a", Some(0)),
+            };
+            let (key, same) = if self.core_keys && self.rng.chance(1, 5) {
+                (["keys", "size", "first", "get"][self.rng.below(4)], None)
+            } else {
+                (key, same)
             };
             let bind = match (same, self.rng.below(3)) {
                 (Some(x), 0) => Bind::Same(x),
@@ -1486,13 +1586,15 @@ fn main() {
     };
     let subj_fixed = fixed("F-C03-2");
     let cfg_line = format!(
-        "cfg {} {} {} {} {}",
+        "cfg {} {} {} {} {} {}",
         fixed("F-C03-1") as u8,
         fixed("F-C03-3") as u8,
         fixed("F-C03-4") as u8,
         fixed("F-C03-5") as u8,
-        subj_fixed as u8
+        subj_fixed as u8,
+        fixed("F-C03-8") as u8
     );
+    let core_keys_ok = fixed("F-C03-6");
     assert_eq!(drv.ask(&cfg_line), "ok");
     rep.extra.insert("model_cfg".into(), json!(cfg_line));
     let mut cx = Ctx { rep, drv, imp: Impl::new(), open, known_counts: Default::default(), k_fail: 0, d_fail: 0, compile_fail: 0 };
@@ -1645,7 +1747,7 @@ fn main() {
     };
     for i in 0..n_random {
         let allow_quirks = i % 4 == 3;
-        let mc = Gen { rng: &mut rng, allow_quirks, subj_fixed }.case();
+        let mc = Gen { rng: &mut rng, allow_quirks, subj_fixed, core_keys: core_keys_ok }.case();
         let subjects: Vec<Vec<V>> = match mc.mode {
             Mode::Multi(k) => {
                 let mut out = vec![];
